@@ -852,8 +852,12 @@ Subroutine.__module__ = "pyteal"
 @contextmanager
 def _frame_pointer_context(proto: Proto | None):
     tmp, SubroutineEval._current_proto = SubroutineEval._current_proto, proto
-    yield proto
-    SubroutineEval._current_proto = tmp
+    try:
+        yield proto
+    finally:
+        # restore also when the subroutine body raises: a stale frame marker would make later,
+        # unrelated ABI values compile to frame_dig/frame_bury outside any frame
+        SubroutineEval._current_proto = tmp
 
 
 @dataclass
